@@ -19,12 +19,17 @@ def opName : Gc.Op → String
   | .slice => "slice" | .mov => "mov" | .smov => "smov" | .amov => "amov"
   | .ret => "ret" | .gc => "gc" | .circ => "circ"
 
-/-- `c|v . id . key . bits . s|u . cint . hash` -/
+/-- `c|v . id . key . bits . s|u . cint . hash . n|<own>_<bits>` -/
 def parseArg (s : String) : Option Arg :=
   match s.splitOn "." with
-  | [c, id, key, bits, sg, ci, h] => do
-    some { const := c == "c", id := ← id.toNat?, key := ← key.toNat?, bits := ← bits.toNat?,
-           signed := sg == "s", cint := ← ci.toNat?, hash := ← h.toNat? }
+  | [c, id, key, bits, sg, ci, h, m] => do
+    let base : Arg := { const := c == "c", id := ← id.toNat?, key := ← key.toNat?, bits := ← bits.toNat?,
+                        signed := sg == "s", cint := ← ci.toNat?, hash := ← h.toNat? }
+    if m == "n" then some base else
+    match m.splitOn "_" with
+    | [own, vb] => some { base with mpa := true, own := ← own.toNat?,
+                                    vbits := if vb == "e" then [] else vb.toList.map (· == '1') }
+    | _ => none
   | _ => none
 
 /-- `op:out:in|in|...` -/
